@@ -651,6 +651,9 @@ class ttensor:
         # Compute inner product of all n-1 factors
         V = []
         for factor_idx, factor in enumerate(self.factor_matrices):
+            # compute in double precision whatever the storage dtype (float32 factors and
+            # core would otherwise be multiplied, and their Gram matrices formed, in float32)
+            factor = factor.astype(float)
             if factor_idx == n:
                 V.append(factor)
             else:
